@@ -2073,7 +2073,12 @@ def check_evaluate_coordinates(rep: Report, ix) -> None:
         raise AnalysisError(f"{fi.ref}: no statement defines `{sig_name}` / `{extra_name}`")
     n_scen = 0
     bad: dict[str, str] = {}
-    for axes in (("x", "y"), ("r", "z"), ("x", "y", "z")):
+    import os as _os
+
+    grids = (("x", "y"), ("r", "z"), ("x", "y", "z"))
+    if _os.environ.get("PDELINT_TIER") == "thorough":
+        grids += (("x",), ("r",), ("r", "θ"), ("r", "θ", "φ"), ("σ", "τ", "φ"))
+    for axes in grids:
         n = len(axes)
         coords = np.empty((2,) * n + (n,), dtype=object)
         for cell in np.ndindex(*coords.shape[:-1]):
